@@ -97,6 +97,12 @@ template<typename T, typename K, typename A>
 template<typename FwdSketch>
 void density_sketch<T, K, A>::merge(FwdSketch&& other) {
   if (other.is_empty()) return;
+  if (static_cast<const void*>(&other) == static_cast<const void*>(this)) {
+    // merging a sketch into itself: the levels grow while they are copied from, so use a snapshot
+    density_sketch copy(other);
+    merge(std::move(copy));
+    return;
+  }
   if (other.dim_ != dim_) throw std::invalid_argument("dimension mismatch");
   while (levels_.size() < other.levels_.size()) levels_.push_back(Level(levels_.get_allocator()));
   for (unsigned height = 0; height < other.levels_.size(); ++height) {
